@@ -109,7 +109,7 @@ SCOPE = {
     "C17": _ALL | {"UNEXPECTED_EXC", "MISSING_VALUEERROR", "CLASS_MISMATCH", "REGION", "NONDET_HISTORY", "NONDET_HASHSEED", "INPUT_MUTATED"},
     "C02": _ALL | {"INCOMPLETE", "WRONG_DIM", "UNEXPECTED_EXC"},
     "C03": _ALL | {"WRONG_SPLIT", "WRONG_DIM", "UNEXPECTED_EXC"},
-    "C04": _ALL | {"CELL_PBC", "FORMULA", "IDENTITY", "ANALYZE_EXC", "UNEXPECTED_EXC"},
+    "C04": _ALL | {"CELL_PBC", "FORMULA", "IDENTITY", "ANALYZE_EXC", "UNEXPECTED_EXC", "NO_CLUSTER"},
 }
 # C13 speaks about the shortcut on returned clusters: only the DIM operation can violate it
 SCOPE_OPS = {"C13": {"DIM"}}
